@@ -23,13 +23,17 @@
 //        TMCG_OpenPGP_Signature::Verify…/VerifyData: kind data|datalit|standalone|key|key2|uid|uat ((a,b,c) = (data,-,-) |
 //        (data,filename,format‖time) | (-,-,-) | (key,-,-) | (primary,subkey,-) | (key,uid,-) | (key,uat,-)); hlog as above;
 //        pklog = [canonical data S-expression : rc] of the gcry_pk_verify calls
+//   pgpmsg.sigflip <kind> <a> <b> <c> <body> <pos> <body'> tag:<field> => <hashed 0|1> <same|changed>
+//        one octet of a signature packet body changed: is the octet in the hashed part, and does the library hash the same
+//        octets as before (observed from its gcry_md_hash_buffer call)?
 //   prop.pgpmsg sym <what> algo=<a> mode=<cfb|eax|ocb> cs=<c> len=<n> tag:<class> => <ok|refused> <eq 0|1>
 //        verdict of the real library on one (possibly tampered) cipher text: what = cfb (raw routines) | seipd | sed | mdc |
 //        aead (raw routines) | aead1 (one-shot form, |ad| = 4) | aeadmsg (MessageParse + Decrypt); eq = the plaintext came back
 //        classes: honest[:…] | empty | flip:<where>:<pos> | reorder:<i>-<j> | duplicate:<i> | truncate[:…] | drop-final | iv |
 //        ad:<i> | ad:chunksize-both | key[:checksum] | nomdc:<how> | wrongmdc | emptybody | framing:<how> | garbage
 //   prop.pgpmsg sig <key> v<version> <type> hash=<h> len=<n> tag:<class> => <ok|refused> same=<0|1>
-//        verdict on one signature: classes honest[:…] | flip:sig-<header|hashed|unhashedlen|left16|mpilen|value|v3>:<pos> |
+//        verdict on one signature: classes honest[:…] | flip:sig-<header|hashed|mpilen|value|v3-fixed|v3-hashalgo>:<pos> |
+//        flip:sig-unhashed:<uspdlen|left16|keyid|pkalgo>:<pos> (fields that are neither hashed nor the signature value) |
 //        flip:<doc|text|key|subkey|uid|uat|literal-…>:<pos> | append:doc | cut:doc | otherkey | swap:keys | uid-as-uat |
 //        v5:… | v3:uat | weakhash | expired | olderthankey | future (the last four: Verify and CheckValidity both needed);
 //        same = the parsed packet is the same signature (all fields that enter verification) as the untouched one
@@ -755,6 +759,8 @@ static bool sign_hash(const TestKey &k, int hashalgo, const Oct &hash, const Oct
 }
 
 // ---- verification with one trace line
+// the octets the library hashed in the last verification (if it got that far)
+static bool g_hashed = false; static std::string g_hash_input;
 enum VKind { V_DATA, V_DATALIT, V_STANDALONE, V_KEY, V_KEY2, V_UID, V_UAT };
 static const char *vkind_name[] = { "data", "datalit", "standalone", "key", "key2", "uid", "uat" };
 struct Lit { unsigned char format = 0x62; std::string filename; time_t timestamp = 0; };
@@ -774,6 +780,7 @@ static bool sig_verify(TMCG_OpenPGP_Signature *sig, const TestKey &k, VKind kind
 	default: ok = sig->Verify(k.key, a, b, 0, 0); break;
 	} }
 	hashlog.log = false; pk_log = false;
+	g_hashed = !hashlog.raw.empty(); if (g_hashed) g_hash_input = hashlog.raw[0].second;
 	Oct bb = b, cc;
 	if (kind == V_DATALIT) { bb = str_oct(lit.filename); cc.push_back(lit.format); PGP::PacketTimeEncode(lit.timestamp, cc); }
 	emit(std::string("pgpmsg.verify ") + vkind_name[kind] + " " + std::to_string((unsigned)sig->version) + " " + std::to_string((unsigned)sig->type) + " " + std::to_string((unsigned)sig->pkalgo) + " " + std::to_string((unsigned)sig->hashalgo) + " " +
@@ -804,7 +811,7 @@ static void prop_sig_line(const TestKey &k, int ver, int type, int hashalgo, siz
 // same = the parsed signature has the fields of `orig` (a snapshot of the untouched one)
 static SigVerdict sig_case_inner(const Oct &sigpkt, const TestKey &k, VKind kind, const Oct &a, const Oct &b, const Lit &lit, const std::string &tag)
 {
-	TMCG_OpenPGP_Signature *sig = NULL; bool pok; SigVerdict v;
+	TMCG_OpenPGP_Signature *sig = NULL; bool pok; SigVerdict v; g_hashed = false;
 	PGP::MemoryGuardReset();
 	{ QuietCerr q; pok = PGP::SignatureParse(sigpkt, 0, sig); }
 	if (!pok || !sig) return v;
@@ -820,6 +827,16 @@ static bool sig_case(const Oct &sigpkt, const TestKey &k, VKind kind, const Oct 
 	SigVerdict v = sig_case_inner(sigpkt, k, kind, a, b, lit, tag);
 	if (g_pc.k) prop_sig_line(*g_pc.k, g_pc.ver, g_pc.type, g_pc.hashalgo, g_pc.len, tag, v.ok, v.same);
 	return v.ok;
+}
+
+// one changed octet of a signature packet body: does the library hash the same octets as for the untouched packet?
+// (emitted when both verifications got as far as hashing; `hashed` = the harness' own view of the packet layout)
+static void sigflip_line(VKind kind, const Oct &a, const Oct &b, const Lit &lit, const Oct &orig, const Oct &flipped, size_t hl, size_t pos, bool hashed, const std::string &orig_input, const std::string &field)
+{
+	if (pos < hl || !g_hashed) return;
+	Oct bb = b, cc; if (kind == V_DATALIT) { bb = str_oct(lit.filename); cc.push_back(lit.format); PGP::PacketTimeEncode(lit.timestamp, cc); }
+	emit(std::string("pgpmsg.sigflip ") + vkind_name[kind] + " " + hx(a) + " " + hx(bb) + " " + hx(cc) + " " + hx(Oct(orig.begin() + hl, orig.end())) + " " + std::to_string(pos - hl) + " " + hx(Oct(flipped.begin() + hl, flipped.end())) +
+		" tag:" + field + " => " + (hashed ? "1 " : "0 ") + (g_hash_input == orig_input ? "same" : "changed"));
 }
 
 struct Made { Oct sigpkt, trailer; int ver, type, hashalgo; VKind vk; Oct a, b; Lit lit; };
@@ -1017,17 +1034,21 @@ static int drv_pgpmsg_sig(const Opts &o, SplitMix &g)
 		Made m; if (!make_sig(g, k, cls, hashalgo, now - 50, g.coin() ? 0 : 100000, doc, m)) { emit("# signing failed: " + k.name + " class " + std::to_string(cls) + " hash " + std::to_string(hashalgo)); continue; }
 		made++;
 		prop_ctx(k, m.ver, m.type, hashalgo, len);
-		bool ok = sig_case(m.sigpkt, k, m.vk, m.a, m.b, m.lit, "honest"); 
+		bool ok = sig_case(m.sigpkt, k, m.vk, m.a, m.b, m.lit, "honest");
+		std::string orig_input = g_hash_input; bool orig_hashed = g_hashed;
 		// line ending forms of a text document verify alike
 		if (cls == 1 || cls == 3) { Oct d2; for (size_t i = 0; i < doc.size(); i++) { if (doc[i] == '\n' && (i == 0 || doc[i - 1] != '\r')) d2.push_back('\r'); d2.push_back(doc[i]); }
 			bool ok2 = sig_case(m.sigpkt, k, m.vk, d2, m.b, m.lit, "honest:crlf");  }
 		// every octet of the signature packet (a sample for the long ones)
 		for (size_t pos : flip_positions(g, m.sigpkt.size(), thorough ? 100000 : (cls < 2 && ki == o.seed % keys.size() ? 100000 : 0), thorough ? 200 : 24)) {
 			Oct c = m.sigpkt; c[pos] ^= (unsigned char)(1u << g.below(8));
-			size_t hl = m.sigpkt.size() > 193 ? 3 : 2; std::string where = pos < hl ? "header" : pos < hl + m.trailer.size() ? "hashed" : pos < hl + m.trailer.size() + 2 ? "unhashedlen" : pos < hl + m.trailer.size() + 4 ? "left16" : "value";
+			// fields that are neither hashed nor the signature value: the unhashed subpacket area (here: its two length octets)
+			// and the left 16 bits of the digest
+			size_t hl = m.sigpkt.size() > 193 ? 3 : 2; std::string where = pos < hl ? "header" : pos < hl + m.trailer.size() ? "hashed" : pos < hl + m.trailer.size() + 2 ? "unhashed:uspdlen" : pos < hl + m.trailer.size() + 4 ? "unhashed:left16" : "value";
 			{ size_t v0 = hl + m.trailer.size() + 4; if (pos == v0 || pos == v0 + 1) where = "mpilen"; else if (k.pkalgo != 1 && m.sigpkt.size() >= v0 + 2) { size_t l1 = (((size_t)m.sigpkt[v0] << 8) + m.sigpkt[v0 + 1] + 7) / 8; if (pos == v0 + 2 + l1 || pos == v0 + 3 + l1) where = "mpilen"; } }
 			std::string t = "flip:sig-" + where + ":" + std::to_string(pos);
-			bool x = sig_case(c, k, m.vk, m.a, m.b, m.lit, t); 
+			bool x = sig_case(c, k, m.vk, m.a, m.b, m.lit, t);
+			if (orig_hashed) sigflip_line(m.vk, m.a, m.b, m.lit, m.sigpkt, c, hl, pos, pos >= hl && pos < hl + m.trailer.size(), orig_input, where);
 			if (x && o.has("--dump-accepted")) emit("# accepted " + t + " orig=" + hx(m.sigpkt) + " flipped=" + hx(c));
 		}
 		if (o.has("--probe-header")) for (size_t pos = 0; pos < 2; pos++) for (int bit = 0; bit < 8; bit++) { Oct c = m.sigpkt; c[pos] ^= (unsigned char)(1u << bit); bool x = sig_case(c, k, m.vk, m.a, m.b, m.lit, "probe"); if (x) emit("# header flip accepted: pos " + std::to_string(pos) + " bit " + std::to_string(bit) + " orig=" + hx(m.sigpkt)); }
@@ -1100,7 +1121,12 @@ static int drv_pgpmsg_sig(const Opts &o, SplitMix &g)
 		PGP::PacketTagEncode(2, sp); PGP::PacketLengthEncode(body.size(), sp); sp.insert(sp.end(), body.begin(), body.end());
 		prop_ctx(k, 3, type, hashalgo, doc.size());
 		bool ok = sig_case(sp, k, V_DATA, doc, Oct(), Lit(), "honest"); 
-		for (size_t pos : flip_positions(g, sp.size(), thorough ? 100000 : 0, 16)) { Oct c = sp; c[pos] ^= (unsigned char)(1u << g.below(8)); std::string t = "flip:sig-v3:" + std::to_string(pos); bool x = sig_case(c, k, V_DATA, doc, Oct(), Lit(), t);  }
+		std::string orig_input = g_hash_input; bool orig_hashed = g_hashed;
+		for (size_t pos : flip_positions(g, sp.size(), thorough ? 100000 : 0, 16)) { Oct c = sp; c[pos] ^= (unsigned char)(1u << g.below(8));
+			// V3 body: version, 5, [type, time(4)] hashed, key ID(8), public-key algorithm, hash algorithm, left(2), MPIs
+			size_t h3 = sp.size() > 193 ? 3 : 2, bp = pos - h3; std::string where = pos < h3 ? "header" : bp < 2 ? "v3-fixed" : bp < 7 ? "hashed" : bp < 15 ? "unhashed:keyid" : bp == 15 ? "unhashed:pkalgo" : bp == 16 ? "v3-hashalgo" : bp < 19 ? "unhashed:left16" : (bp < 21 ? "mpilen" : "value");
+			std::string t = "flip:sig-" + where + ":" + std::to_string(pos); sig_case(c, k, V_DATA, doc, Oct(), Lit(), t);
+			if (orig_hashed) sigflip_line(V_DATA, doc, Oct(), Lit(), sp, c, h3, pos, pos >= h3 + 2 && pos < h3 + 7, orig_input, where); }
 		{ Oct c = doc; c[g.below(c.size())] ^= 0x20; bool x = sig_case(sp, k, V_DATA, c, Oct(), Lit(), "flip:doc:0");  }
 		{ bool x = sig_case(sp, k, V_UAT, doc, doc, Lit(), "v3:uat");  }
 	}
